@@ -629,6 +629,11 @@ func (en *Env) unary(v EUnary) TV {
 			return TV{TypeRef: types.NewPointer(x.TypeRef)}
 		}
 		return en.derefPtr(x)
+	case "[]":
+		if x.TypeRef != nil {
+			return TV{TypeRef: types.NewSlice(x.TypeRef)}
+		}
+		en.fail("[] needs a type")
 	}
 	en.fail("unsupported unary %s", v.Op)
 	return TV{}
